@@ -138,17 +138,6 @@ Definition set_now (w : world) (t : Z) : world :=
   mkW (map (fun s => with_now s t) (w_slots w)) (w_ok w) (w_why w) (w_pc w) (w_pre w) (w_out w).
 Fixpoint insert_dl (p : Z * Z) (l : list (Z * Z)) : list (Z * Z) :=
   match l with [] => [p] | q :: r => if snd p <? snd q then p :: l else q :: insert_dl p r end.
-Definition advance (w : world) (now' : Z) : world :=
-  let due := fold_right insert_dl [] (filter (fun p => snd p <=? now') (w_pre w)) in
-  let w1 := fold_left (fun acc p =>
-    match find_req (w_slots acc) 1 (fst p) with
-    | Some (i, q) => if r_fin q then acc else try_app (set_now acc (snd p)) i (LCancel (fst p))
-    | None => acc end) due w in
-  let w2 := set_now w1 now' in
-  mkW (w_slots w2) (w_ok w2) (w_why w2) (w_pc w2) (filter (fun p => now' <? snd p) (w_pre w2)) (w_out w2).
-
-Definition now_of (w : world) : Z := match w_slots w with s :: _ => s_now s | [] => 0 end.
-
 (* is a cloud call of the factory worker of interface i begun before the next quiescent point? *)
 Fixpoint begins_ahead (i : Z) (rest : list (list Z)) : bool :=
   match rest with
@@ -157,6 +146,20 @@ Fixpoint begins_ahead (i : Z) (rest : list (list Z)) : bool :=
   | (11 :: j :: k :: _) :: t => ((j =? i) && (k <=? 3)) || begins_ahead i t
   | _ :: t => begins_ahead i t
   end.
+
+(* hold i p: a pre-heat request whose two minutes end at the very instant now' at which the factory worker of its
+   interface begins a call (observed ahead) is cancelled after that call has begun: the worker read the queues first *)
+Definition advance_h (w : world) (now' : Z) (hold : Z * Z -> bool) : world :=
+  let due := fold_right insert_dl [] (filter (fun p => (snd p <=? now') && negb (hold p)) (w_pre w)) in
+  let w1 := fold_left (fun acc p =>
+    match find_req (w_slots acc) 1 (fst p) with
+    | Some (i, q) => if r_fin q then acc else try_app (set_now acc (snd p)) i (LCancel (fst p))
+    | None => acc end) due w in
+  let w2 := set_now w1 now' in
+  mkW (w_slots w2) (w_ok w2) (w_why w2) (w_pc w2) (filter (fun p => (now' <? snd p) || hold p) (w_pre w2)) (w_out w2).
+Definition advance (w : world) (now' : Z) : world := advance_h w now' (fun _ => false).
+
+Definition now_of (w : world) : Z := match w_slots w with s :: _ => s_now s | [] => 0 end.
 
 (* replies are logged when Manager.Allocate returns, i.e. a little after the worker took the address;
    when an observation on interface i does not fit, the replies logged later in the same block for
@@ -254,7 +257,11 @@ Definition rec_step (c : cfg) (rest : list (list Z)) (w : world) (r : list Z) : 
   | 14 :: dt :: _ =>
       if dt <? 0 then fail w 14
       else
-        let w1 := advance w (now_of w + dt) in
+        let now' := now_of w + dt in
+        let w1 := advance_h w now' (fun p => (snd p =? now') &&
+                    match find_req (w_slots w) 1 (fst p) with
+                    | Some (i, q) => negb (r_fin q) && begins_ahead i rest
+                    | None => false end) in
         (* the 300 ms sleep of an armed factory worker that finds nothing to do ends with a broadcast *)
         (* an armed factory worker whose 300 ms sleep has ended either starts a call (observed below) or
            finds nothing to do; whether its loop-head check beat the exit of the last waiting request is
